@@ -226,6 +226,9 @@ def reset(sx):
         sx.check(text == S.to_string(s_at), "lc.status-text-matches-state-at-every-delivery")
 
 
+DEEP = [False]
+
+
 def concurrent_pair(sx):
     """two events raised from different tasks while the client handler is suspended (it yields once per
     delivery): facade-teardown is still announced at most once for the one facade-ready"""
@@ -243,7 +246,10 @@ def concurrent_pair(sx):
             await asyncio.sleep(0)
 
     man = Man("uuid", spa_identifier="SPA01:02:03:04:05:06", spa_name="My Spa")
-    man._spa_state = S.CONNECTED
+    # quick: from CONNECTED; thorough: from every state a connected spa with a facade can be in
+    starts = [S.CONNECTED] if not DEEP[0] else [S.CONNECTED, S.ERROR_PING_MISSED, S.ERROR_RF_FAULT, S.ERROR_NEEDS_ATTENTION]
+    st0 = starts[sx.choice("start_state", len(starts))]
+    man._spa_state = st0
     man._spa = real_spa(man, True)
     man._facade = FakeFacade()
     man._status_sensor = M.GeckoAsyncSpaMan.StatusSensor(man)
@@ -254,20 +260,23 @@ def concurrent_pair(sx):
              E.RUNNING_SPA_PACK_REFRESHED]
     e1 = cands[sx.choice("first", len(cands))]
     e2 = cands[sx.choice("second", len(cands))]
-    gap = sx.choice("second_starts_after_steps", 3)
+    gap = sx.choice("second_starts_after_steps", 3 if not DEEP[0] else 6)
     loop = VLoop()
 
     async def second():
         for _ in range(gap):
             await asyncio.sleep(0)
-        await man._handle_event(e2)
+        # runtime events come from the spa's own tasks, which a completed reset has cancelled with the spa
+        if man._spa is not None:
+            await man._handle_event(e2)
 
     async def main():
         await asyncio.gather(asyncio.ensure_future(man._handle_event(e1)), asyncio.ensure_future(second()))
     loop.run_until_complete(main(), max_time=10.0)
     tear = [r for r in rec if r[0] == E.CLIENT_FACADE_TEARDOWN]
     sx.observe("teardowns", len(tear))
-    sx.check(len(tear) <= 1, "lc.concurrent-events-announce-teardown-at-most-once", lambda: f"{e1.name} || {e2.name}: {len(tear)}")
+    sx.check(len(tear) <= (1 if st0 == S.CONNECTED else 0), "lc.concurrent-events-announce-teardown-at-most-once",
+             lambda: f"{st0.name}: {e1.name} || {e2.name}: {len(tear)}")
     for r in tear:
         sx.check(r[2] is not None, "lc.teardown-only-while-a-facade-exists")
     sx.check(man.spa_state != S.CONNECTED or (man._facade is not None and man._spa is not None and man._spa.is_connected),
@@ -435,6 +444,7 @@ def connect(sx):
 
 
 def units(tier):
+    DEEP[0] = tier != "quick"
     n = len(states())
     for i in range(n):
         yield Unit(f"step.{states()[i].name}", step, presets={"state": i}, max_paths=200000)
